@@ -300,8 +300,108 @@ def enum_key_paths(cname):
     return res
 
 
+class _CountingDev(object):
+    """Uniform seeded stream that counts the requests of one draw."""
+
+    def __init__(self, r):
+        self.r = r
+        self.calls = 0
+        self.first = None
+
+    def __call__(self, nbytes):
+        self.calls += 1
+        if self.first is None:
+            self.first = nbytes
+        return self.r.randbytes(nbytes)
+
+
+def rate_orders(tier, seed):
+    """Orders for the acceptance-rate bound: the named curves' orders and
+    orders just above / below / between powers of two, where the fraction of
+    first requests that may be accepted is well below one."""
+    out = [c.n for c in mcurves.named()]
+    ks = [9, 17, 33, 49, 53, 64, 100, 128, 160, 192, 255, 256, 384, 521]
+    r = core.rng(seed, "c17-rate")
+    for k in ks:
+        out += [(1 << k) + 2, (1 << k) + 3, (1 << k) + (1 << (k // 2)) + 1,
+                (1 << k) + r.getrandbits(max(1, k - 3)) + 2,
+                3 << (k - 1), 5 << (k - 2)]
+    if tier == "thorough":
+        for _ in range(150):
+            k = r.randrange(5, 600)
+            out.append((1 << k) + r.getrandbits(r.randrange(1, k)) + 2)
+    return sorted(set(out))
+
+
+def rate_order(n, draws, seed):
+    """Mapping-independent bound on how often a draw may finish within its
+    first entropy request.  If the sampler is exactly uniform, each of the
+    n-1 values has probability 1/(n-1); the first request has B bits, so a
+    value can be the immediate answer to at most floor(2^B / (n-1)) of the 2^B
+    first-request strings; hence P(done after one request) <= p_max =
+    floor(2^B/(n-1)) * (n-1) / 2^B.  Observing a larger fraction over `draws`
+    independent uniform streams has probability <= exp(-draws * KL(f||p_max))
+    (Chernoff); below 2^-64 it is reported.  One-sided: a sampler that asks
+    more often than necessary is never flagged."""
+    import math
+    import random
+    core.lib()
+    from ecdsa import util as lu
+    r = random.Random("c17-rate:%d:%d" % (seed, n))
+    one = 0
+    size = None
+    for _ in range(draws):
+        dev = _CountingDev(r)
+        v = lu.randrange(n, dev)
+        if not 1 <= v <= n - 1:
+            return dict(kind="rate", order=n, leaves=0, size=size or 0,
+                        rejected=0, violation=(
+                            "rate-range", "randrange(%d) returned %r" % (n, v)))
+        if size is None:
+            size = dev.first
+        if dev.calls == 1 and dev.first == size:
+            one += 1
+    res = dict(kind="rate", order=n, leaves=0, size=size, rejected=draws - one,
+               draws=draws, one_request=one, violation=None)
+    if not size:
+        return res
+    B = 8 * size
+    cmax = (1 << B) // (n - 1)
+    from fractions import Fraction
+    deficit = Fraction((1 << B) - cmax * (n - 1), 1 << B)   # 1 - p_max
+    res["p_max"] = float(1 - deficit)
+    f = one / draws
+    pm = float(1 - deficit)
+    if deficit > 0 and f > pm:
+        if one == draws:
+            log_bound = draws * math.log1p(-float(deficit))
+        else:
+            log_bound = -draws * (f * math.log(f / pm) + (1 - f) * math.log(
+                (1 - f) / float(deficit)))
+        res["log2_bound"] = log_bound / math.log(2)
+        if log_bound < -64 * math.log(2):
+            res["violation"] = (
+                "never-rejects" if one == draws else "rejects-too-seldom",
+                "randrange(n) for the %d-bit order n=%d finished within its "
+                "first %d-byte request in %d of %d draws from independent "
+                "uniform streams; an exactly uniform sampler can do so with "
+                "probability at most floor(2^%d/(n-1))*(n-1)/2^%d = %.6f "
+                "(each value may be the answer to at most %d first requests)"
+                "; the chance of this observation is below 2^%.0f - some "
+                "values of [1, n-1] are over-represented or unreachable" % (
+                    n.bit_length(), n, size, one, draws, B, B, pm, cmax,
+                    res["log2_bound"]))
+    return res
+
+
+def _rate_draws(n, tier):
+    return 14000 if tier == "quick" else 40000
+
+
 def _enum_any(job):
     try:
+        if isinstance(job, tuple) and job[0] == "rate":
+            return rate_order(job[1], job[2], job[3])
         if isinstance(job, str):
             return enum_key_paths(job)
         return enum_order(job)
@@ -311,6 +411,10 @@ def _enum_any(job):
         lv = core.library_exception(ID, ex)
         if lv is None:
             raise
+        if isinstance(job, tuple):
+            return dict(kind="rate", order=job[1], leaves=0, size=0,
+                        rejected=0, draws=job[2], seed=job[3], violation=(
+                            "exception-" + type(ex).__name__, lv["msg"]))
         res = dict(order=job if not isinstance(job, str) else 0, leaves=0,
                    size=0, rejected=0, violation=(
                        "exception-" + type(ex).__name__, lv["msg"]))
@@ -361,9 +465,12 @@ def extra(tier, seed):
         # half the workers see the orders ascending, half descending, so a
         # value that depended on what was drawn before shows either way
         jobs = jobs[::2] + list(reversed(jobs[1::2]))
+        rjobs = [("rate", n_, _rate_draws(n_, tier), seed)
+                 for n_ in rate_orders(tier, seed)]
         for res in ex.map(_enum_any, three + keycurves + jobs,
                           chunksize=1 if three else 6):
             results.append(res)
+        rate_results = list(ex.map(_enum_any, rjobs, chunksize=2))
     viols = []
     leaves = 0
     not_enum = []
@@ -379,6 +486,14 @@ def extra(tier, seed):
                 prog_ = dict(kind="enum", curve=res["curve"])
             viols.append(dict(index=-res["order"], run_seed=0, program=prog_,
                               violation=v))
+    for res in rate_results:
+        if res["violation"]:
+            site, msg = res["violation"]
+            viols.append(dict(
+                index=-res["order"] % (1 << 40) - (1 << 41), run_seed=0,
+                program=dict(kind="rate", order=res["order"],
+                             draws=res.get("draws", 0), seed=seed),
+                violation=core.violation(ID, "uniform", site, msg)))
     if not_enum:
         raise core.HarnessError(
             "first entropy request for orders %r is larger than 3 bytes: not "
@@ -387,7 +502,13 @@ def extra(tier, seed):
                    leaves=r_["leaves"], rejected=r_["rejected"],
                    strings_per_value=r_.get("per_value"))
               for r_ in results[:2] + results[-2:]]
-    return dict(evaluations=len(results), distinct_nontrivial=len(results),
+    binding = [r_ for r_ in rate_results if r_.get("p_max", 1.0) < 0.999]
+    sample += [dict(kind="rate", order_bits=r_["order"].bit_length(),
+                    first_request_bytes=r_["size"], draws=r_.get("draws"),
+                    finished_in_first_request=r_.get("one_request"),
+                    p_max=r_.get("p_max")) for r_ in binding[:2]]
+    return dict(evaluations=len(results) + len(rate_results),
+                distinct_nontrivial=len(results) + len(binding),
                 samples=sample, exhaustive=True, wall_s=time.time() - t0,
                 violations=viols,
                 report=dict(enumerated_orders=len(results),
@@ -396,6 +517,10 @@ def extra(tier, seed):
                             if tier == "thorough" else
                             "%d orders in [2,4096): 2..130, boundaries, toy "
                             "orders, 120 seeded" % len(orders),
+                            rate_bound_orders=len(rate_results),
+                            rate_bound_orders_binding=len(binding),
+                            rate_bound_draws=sum(r_.get("draws", 0)
+                                                 for r_ in rate_results),
                             exhaustive_scope="every byte string of the "
                             "sampler's first request, per enumerated order"))
 
@@ -475,6 +600,13 @@ class _OS(object):
 
 
 def execute(prog):
+    if prog.get("kind") == "rate":
+        out = core.new_outcome()
+        res = _enum_any(("rate", prog["order"], prog["draws"], prog["seed"]))
+        if res["violation"]:
+            site, msg = res["violation"]
+            out["violation"] = core.violation(ID, "uniform", site, msg)
+        return out
     if prog.get("kind") == "enum":
         # replay of an enumeration finding
         out = core.new_outcome()
